@@ -3,6 +3,7 @@ package main
 import (
 	"fmt"
 	"os"
+	"runtime/pprof"
 	"strings"
 	"verif/internal/e1"
 
@@ -34,6 +35,11 @@ func main() {
 		fmt.Fprintln(os.Stderr, "tier must be quick or thorough")
 		os.Exit(2)
 	}
+	if f := os.Getenv("VERIF_CPUPROFILE"); f != "" {
+		if fh, err := os.Create(f); err == nil {
+			_ = pprof.StartCPUProfile(fh)
+		}
+	}
 	ctx.R = ev.New(id, ctx.Tier, c.Level)
 	// a panic inside lungo during a step of a sequence search is a violation of the property under test (a call must
 	// return a result or an error), not the end of the check
@@ -51,5 +57,6 @@ func main() {
 		ctx.R.Violation("panic:"+last, fmt.Sprintf("panic %v after %s\n%s", p, strings.Join(calls, " ; "), stack), map[string]interface{}{"calls": calls})
 	}
 	c.Run(ctx)
+	pprof.StopCPUProfile()
 	ctx.R.Finish()
 }
